@@ -1,0 +1,11 @@
+//go:build verif && linux
+
+package fuse
+
+import "bazil.org/fuse/fs"
+
+// VerifRoot returns the root node of the filesystem, so that a
+// verification harness can walk the tree without mounting it.
+func VerifRoot() fs.Node {
+	return root(0)
+}
